@@ -270,6 +270,9 @@ def sym_max(*a, **k):
 
 
 def sym_sum(it, start=0):
+    if isinstance(it, SymSeq):
+        from .models import seq_sum
+        return start + seq_sum(it)
     r = start
     for v in it:
         r = r + v
